@@ -178,10 +178,107 @@ def _first(xi):
     return n, res
 
 
+def format_alphabet():
+    import unicodedata
+    nfc = unicodedata.normalize("NFC", "http://ns.example.org/m\u00e9tadonn\u00e9es/v1")
+    return [None, DEFAULT_NS, DEFAULT_NS + "x", DEFAULT_NS.upper(), DEFAULT_NS.rstrip("a"), "c", "bc", "C", "fmt", "FMT", "fmt/", "/fmt",
+            "fmt/../x", "x", "..", ".", "a/b", "a\\b", "a%2Fb", "%", "*", "?", "-rf", "$HOME", "tmp", "objects", "fmt_delete",
+            nfc, unicodedata.normalize("NFD", nfc), "\u212b", "\u00c5", "\U0001F600", "f" * 3000 + "1", "f" * 3000 + "2",
+            "\u6f22" * 1100 + "a", "\u6f22" * 1100 + "b", hashlib.sha256(b"x").hexdigest(), "a\x00b", "\x01"]
+
+
+def _format_first(i):
+    """(pid, format) pairs on ONE pid: for the i-th format f1 of the alphabet and every other format f2, documents stored under
+    f1 and f2 never stand in for, overwrite or delete one another."""
+    from hashstore.filehashstore import FileHashStore
+    fmts = format_alphabet()
+    f1 = fmts[i]
+    root = os.path.join(common.scratch(), "c18-fmt-%d" % i)
+    inp = {}
+    for k, v in (("D1", D1), ("D2", D2)):
+        inp[k] = os.path.join(common.scratch(), "c18fin_%s" % k)
+        with open(inp[k], "wb") as f:
+            f.write(v)
+    res, n = [], 0
+    import shutil
+
+    def sm(store, pid, doc, fmt):
+        return store.store_metadata(pid, doc) if fmt is None else store.store_metadata(pid, doc, fmt)
+
+    def rm(store, pid, fmt):
+        try:
+            st = store.retrieve_metadata(pid) if fmt is None else store.retrieve_metadata(pid, fmt)
+            try:
+                return st.read()
+            finally:
+                st.close()
+        except Exception as e:  # noqa: BLE001
+            return type(e).__name__
+
+    def dm(store, pid, fmt):
+        return store.delete_metadata(pid, DEFAULT_NS) if fmt is None else store.delete_metadata(pid, fmt)
+
+    for j, f2 in enumerate(fmts):
+        if j == i or {f1, f2} == {None, DEFAULT_NS}:
+            continue  # (an omitted format IS the default namespace)
+        for pid in ("pid", "p" if (i + j) % 3 == 0 else None):
+            if pid is None:
+                continue
+            shutil.rmtree(root, ignore_errors=True)
+            store = FileHashStore(common.props(root))
+            errs = []
+            n += 1
+            try:
+                sm(store, pid, inp["D1"], f1)
+                if rm(store, pid, f2) in (D1, D2):
+                    errs.append("a document stored under one format is returned for another format")
+                sm(store, pid, inp["D2"], f2)
+                if rm(store, pid, f1) != D1:
+                    errs.append("storing under one format changed the document of another format")
+                if rm(store, pid, f2) != D2:
+                    errs.append("round trip of the second format fails")
+                dm(store, pid, f2)
+                if rm(store, pid, f1) != D1:
+                    errs.append("deleting one format's document removed or changed another format's document")
+                if rm(store, pid, f2) in (D1, D2):
+                    errs.append("a deleted document is still served (under its own or through another format)")
+                sm(store, pid, inp["D2"], f2)
+                dm(store, pid, f1)
+                if rm(store, pid, f2) != D2:
+                    errs.append("deleting one format's document removed or changed another format's document")
+                store.delete_metadata(pid)
+                if rm(store, pid, f1) in (D1, D2) or rm(store, pid, f2) in (D1, D2):
+                    errs.append("delete_metadata(pid) left a document behind")
+                left = [r for r, b in snapshot(root).items() if b is not None and r.startswith("metadata/") and "/tmp" not in r]
+                if left:
+                    errs.append("files remain under metadata/ after all documents were deleted")
+            except Exception as e:  # noqa: BLE001
+                errs.append("script raised %s" % type(e).__name__)
+            for e in sorted(set(errs)):
+                res.append(({"kind": "format-alias", "what": e}, {"pid": pid, "formats": [repr(f1)[:80], repr(f2)[:80]]}))
+    shutil.rmtree(root, ignore_errors=True)
+    return n, res
+
+
+def format_pairs(rep):
+    fmts = format_alphabet()
+    n = 0
+    for cnt, res in pmap(_format_first, list(range(len(fmts)))):
+        n += cnt
+        for sig, det in res:
+            rep.violation(sig, det)
+    rep.coverage["format_pairs"] = {"formats": len(fmts), "scripts": n,
+                                    "rule": "all ordered pairs of a %d-element format alphabet (omitted, default namespace and near "
+                                            "misses, case variants, NFC / NFD and compatibility-equivalent spellings, path-like, "
+                                            "3000-character strings differing in the last character, marker- and directory-like "
+                                            "names) on one pid" % len(fmts)}
+
+
 def main(tier):
     global TIER
     TIER = tier
     rep = common.Report("C18", tier, "exploration")
+    format_pairs(rep)
     ids = identifiers()
     n = 0
     for cnt, res in pmap(_first, list(range(len(ids)))):
